@@ -55,10 +55,12 @@ def canon(v) -> str:
     if isinstance(v, str):
         return v
     if v is None:
-        return "none"
+        return "unit"
     if isinstance(v, slice):
         return f"{canon(v.start)} {canon(v.stop)}"
     if isinstance(v, tuple):
+        if len(v) == 0:
+            return "unit"
         return " ".join(canon(x) for x in v)
     if isinstance(v, (list, np.ndarray)):
         return "[" + " ".join(canon(x) for x in v) + "]"
@@ -214,9 +216,12 @@ def failed_decls(build_out: str) -> list[str]:
 def eval_kernel_py(info: dict, args: list, modglobals: dict | None = None):
     """Evaluate the Python source selected for a kernel on concrete arguments."""
     import numpy as np
-    env = {"np": np, "math": math, "__builtins__": __builtins__}
+    import warnings
+    warnings.simplefilter("ignore")
+    env = {"np": np, "math": math, "warnings": warnings, "__builtins__": __builtins__}
     if modglobals:
         env.update(modglobals)
+    env.update(info.get("consts") or {})
     src = info["pysrc"]
     params = [p for p, _ in info["params"]]
     loc = dict(zip(params, args))
